@@ -353,10 +353,9 @@ Fixpoint write_elems (fuel : nat) (arr : list Wt) (eb : nat) (value : list Wt) (
       end
   end.
 
-Definition array_write (arr : list Wt) (eb : nat) (index : list Wt) (value : list Wt) (m : meta)
+Definition array_write (arr : list Wt) (eb size : nat) (index : list Wt) (value : list Wt) (m : meta)
   : M (list Wt) :=
-  if (eb =? 0)%nat then crash (* array.len() / elem_bits *) else
-  let size := (length arr / eb)%nat in
+  (* [size]: the number of elements according to the array type (also for zero-sized elements) *)
   do* index := m_extend index (TInt false 32) USZ in
   do* neg := mapM_M m_not index in
   do* arr' := write_elems (S (length arr)) (firstn (size * eb) arr) eb value 0 index neg in
@@ -458,8 +457,9 @@ Definition lower_mul (signed : bool) (x y : list Wt) (m : meta) : M (list Wt) :=
   do* _ := m_panic_if overflow Overflow m in
   ret result.
 
-(* `x * c` / `c * x` for a literal c with 0 < |c| < bits of the literal's own type: the
-   expression is rewritten to repeated addition (negated for a negative literal) *)
+(* `x * c` / `c * x` for a literal c with 0 < |c| < bits of the literal's own type: the OTHER
+   operand is evaluated once, bound to a reserved name in a scope of its own, and the product is
+   compiled as repeated addition of that name (negated for a negative literal) *)
 Definition lit_info (x : expr) : option (N * N * bool) :=
   match x with
   | Ex (ENumU n lb) _ _ => Some (n, lb, false)
@@ -467,18 +467,23 @@ Definition lit_info (x : expr) : option (N * N * bool) :=
   | _ => None
   end.
 
-Definition rewrite_one (x y : expr) (m : meta) (t : ty) : option expr :=
+(* the reserved name "\0mul_operand": no identifier of a program is interned to it *)
+Definition MUL_TMP : N := 4611686018427387904.
+
+(* (operand to evaluate once, the sum over the reserved name) *)
+Definition rewrite_one (x y : expr) (m : meta) (t : ty) : option (expr * expr) :=
   match lit_info x with
   | Some (n, bits, neg) =>
       if n =? 0 then None else
       if n <? bits then
-        let e := N.iter (n - 1) (fun e => Ex (EOp OAdd e y) m t) y in
-        Some (if neg then Ex (ENeg e) m t else e)
+        let yv := Ex (EId MUL_TMP) (e_meta y) (e_ty y) in
+        let e := N.iter (n - 1) (fun e => Ex (EOp OAdd e yv) m t) yv in
+        Some (y, if neg then Ex (ENeg e) m t else e)
       else None
   | None => None
   end.
 
-Definition mul_rewrite (x y : expr) (m : meta) (t : ty) : option expr :=
+Definition mul_rewrite (x y : expr) (m : meta) (t : ty) : option (expr * expr) :=
   match rewrite_one x y m t with
   | Some e => Some e
   | None => rewrite_one y x m t
@@ -769,13 +774,13 @@ Section Rec.
     match accs with
     | [] => ret acc
     | AIdx arr_ty _ :: r =>
-        do* (eb, _) := lift_res (array_size P arr_ty) in
+        do* (eb, num_elems) := lift_res (array_size P arr_ty) in
         match idxs with
         | [] => crash
         | iw :: ir =>
             do* arr' := index_layers (rev iw) coll eb in
             let coll' := match arr' with [] => repeat wF eb | _ => arr' end in
-            assign_forward r coll' ir ((coll, eb, O, Some iw) :: acc)
+            assign_forward r coll' ir ((coll, eb, num_elems, Some iw) :: acc)
         end
     | ATup tup_ty i :: r =>
         do* (wb, wi) := lift_res (tuple_offsets P tup_ty i) in
@@ -792,7 +797,7 @@ Section Rec.
     match acc with
     | [] => ret value
     | (before, a, n, Some iw) :: r =>
-        do* v' := array_write before a iw value m in assign_backward m r v'
+        do* v' := array_write before a n iw value m in assign_backward m r v'
     | (before, a, n, None) :: r =>
         do* v' := lift_res (splice before a n value) in assign_backward m r v'
     end.
@@ -943,7 +948,12 @@ Section Rec.
           ret (r, E2)
       | EOp o x y =>
           match (match o with OMul => mul_rewrite x y m t | _ => None end) with
-          | Some e' => rec_e e' E
+          | Some (operand, e') =>
+              do* (w, E1) := rec_e operand E in
+              do* E2 := lift_res (env_let (env_push E1) MUL_TMP w) in
+              do* (r, E3) := rec_e e' E2 in
+              do* E4 := lift_res (env_pop E3) in
+              ret (r, E4)
           | None =>
               do* (xw, E1) := rec_e x E in
               do* (yw, E2) := rec_e y E1 in
